@@ -107,7 +107,50 @@ def rescan_worker(case):
         core.cleanup_case(cdir, keep)
 
 
+def pipe_worker(case):
+    """The file arrives through a pipe (not seekable).  Whatever the validation calls answer there, they must not consume the stream
+    behind the caller's back: a read-to-end afterwards (error cleared) gives what the same read gives without them."""
+    cdir = case["dir"]
+    keep = False
+    disk = core.unb64(case["disk"])
+    cid = core.h8(["pipe", case["base"], case["words"], hashlib.sha256(disk).hexdigest()[:12]])
+    stats = {"pipe_cases": 1}
+    try:
+        base_script = "fopen 1 f.zck pipe input\ncreate 1\ninit_read 1 1\nreadall 1 0 4096\nclose 1\n"
+        b0 = core.run_zh(case["zh"], cdir, base_script, {"f.zck": disk}, name="plainread")
+        if b0.harness_error or (b0.timed_out and not b0.cpu_exceeded):
+            return core.verdict(cid, "inconclusive", detail="pipe baseline: %s" % (b0.harness_error,), case=case)
+        base_sum = _read_summary(b0)
+        viol = None
+        for wi, word in enumerate(case["words"]):
+            L = ["fopen 1 f.zck pipe input", "create 1", "init_read 1 1"]
+            for w in word:
+                L += ["%s 1" % w, "clear_error 1"]
+            L += ["readall 1 0 4096", "close 1"]
+            rd = core.run_zh(case["zh"], cdir, "\n".join(L) + "\n", {"f.zck": disk}, name="w%d" % wi)
+            if rd.timed_out and not rd.cpu_exceeded:
+                return core.verdict(cid, "inconclusive", detail="watchdog", case=case)
+            cs = core.crash_signatures(rd)
+            if cs:
+                viol = (cs[0], "crash in %s on a pipe: %s" % (rd.open_call, cs))
+                break
+            stats["validations_on_a_pipe"] = stats.get("validations_on_a_pipe", 0) + len(word)
+            s_ = _read_summary(rd)
+            if s_ != base_sum:
+                viol = ("c09:pipe:read-after-%s-differs" % "+".join(word), "through a pipe, after %s: %s ; without: %s (validation results %s)" %
+                        (word, s_, base_sum, [e.get("rc") for e in rd.events if e.get("op") in ("vc", "vd", "fv")]))
+                break
+        if viol:
+            keep = True
+            return core.verdict(cid, "violated", [viol[0]], stats, detail=viol[1] + " base=%s" % case["base"], cdir=cdir, case=case)
+        return core.verdict(cid, "held", stats=stats, nontrivial=True, sample={"base": case["base"], "through_a_pipe": True, "words": case["words"], "baseline": base_sum})
+    finally:
+        core.cleanup_case(cdir, keep)
+
+
 def worker(case):
+    if case.get("pipe"):
+        return pipe_worker(case)
     if case.get("rescan"):
         return rescan_worker(case)
     cdir = case["dir"]
@@ -124,7 +167,13 @@ def worker(case):
             exp_det = [exp[0]] + [0] * (len(exp) - 1)
         # baseline: read without validations
         base_script = "fopen 1 f.zck rw input\ncreate 1\ninit_read 1 1\nreadall 1 0 4096\nclose 1\n"
-        b0 = core.run_zh(case["zh"], cdir, base_script, {"f.zck": disk}, name="plainread")
+        if case.get("sparse"):
+            os.makedirs(cdir, exist_ok=True)
+            core.write_sparse(os.path.join(cdir, "f.zck"), disk)
+            stats["sparse_files"] = 1
+            b0 = core.run_zh(case["zh"], cdir, base_script, None, name="plainread")
+        else:
+            b0 = core.run_zh(case["zh"], cdir, base_script, {"f.zck": disk}, name="plainread")
         if b0.timed_out and not b0.cpu_exceeded:
             return core.verdict(cid, "inconclusive", detail="watchdog", case=case)
         base_sum = _read_summary(b0)
@@ -134,7 +183,10 @@ def worker(case):
             for w in word:
                 L += ["%s 1" % w, "flags 1"]
             L += ["iolog 0", "tell 1", "readall 1 0 4096", "close 1"]
-            open(os.path.join(cdir, "f.zck"), "wb").write(disk)
+            if case.get("sparse"):
+                core.write_sparse(os.path.join(cdir, "f.zck"), disk)
+            else:
+                open(os.path.join(cdir, "f.zck"), "wb").write(disk)
             rd = core.run_zh(case["zh"], cdir, "\n".join(L) + "\n", name="w%d" % wi)
             if rd.timed_out and not rd.cpu_exceeded:
                 return core.verdict(cid, "inconclusive", detail="watchdog", case=case)
@@ -270,6 +322,11 @@ def _state_of(state, k):
         return "?"
 
 
+def gen_content_rand(n, seed):
+    import random
+    return random.Random("c09/%s" % seed).randbytes(n)
+
+
 def _read_summary(r):
     reads = r.ev(ev="read")
     cl = r.first(op="close")
@@ -334,6 +391,15 @@ class C09(core.Check):
             data = basefiles.write_with_lib(ctx["zh"], os.path.join(self.work, "big%d" % comp), D2, {"comp": comp, "manual": True}, [70000, "e", 40000, "e", 40000, "e"])
             if data:
                 bases.append({"name": "big-c%d" % comp, "data": data, "content": D2})
+        # uncompressed files with long runs of zero bytes as stored chunk content, kept as SPARSE files (holes where the zeros are)
+        for k_, sizes_ in enumerate([[20000, 9000, 30000], [70000, 100, 40000, 40000]]):
+            pieces_ = [bytes(n_) if j_ % 2 == 0 else gen_content_rand(n_, k_ * 10 + j_) for j_, n_ in enumerate(sizes_)]
+            seg_ = []
+            for pc_ in pieces_:
+                seg_ += [len(pc_), "e"]
+            data = basefiles.write_with_lib(ctx["zh"], os.path.join(self.work, "sparse%d" % k_), b"".join(pieces_), {"comp": 0, "manual": True}, seg_)
+            if data:
+                bases.append({"name": "zero-chunks-sparse%d" % k_, "data": data, "content": b"".join(pieces_), "sparse": True})
         words_long = all_words(2 if self.quick else 3)
         out = []
         for bi, b in enumerate(bases):
@@ -353,7 +419,10 @@ class C09(core.Check):
                 words = list(WORDS1)
                 if (si + bi) % (6 if self.quick else 2) == 0:
                     words = words + r.sample(words_long, 3 if self.quick else 8)
-                out.append({"base": b["name"], "state": {"chunks": st}, "disk": core.b64(disk), "words": words, "zh": ctx["zh"]})
+                out.append({"base": b["name"], "state": {"chunks": st}, "disk": core.b64(disk), "words": words, "zh": ctx["zh"], "sparse": b.get("sparse", False)})
+            # the intact file (and one damaged state) through a pipe
+            if len(b["data"]) < 900000:
+                out.append({"pipe": True, "base": b["name"], "disk": core.b64(b["data"]), "words": [["vd"], ["vc"], ["fv"], ["vd", "vc"], ["fv", "fv"]], "zh": ctx["zh"]})
             # truncations at arbitrary lengths, over-long, wrong data digest, detached header
             full = b["data"]
             lens = sorted(set([p.header_len, p.header_len + 1, len(full) - 1] + [r.randrange(p.header_len, len(full)) for _ in range(6 if self.quick else 40)]))
